@@ -212,7 +212,8 @@ def check(ctx, rep):
     rule_paren_safe(ctx, rep)
     rule_args(ctx, rep)
     rule_invert_table(ctx, rep)
-    from .c02 import rule_nodetype
+    from .c02 import rule_import_removal_owner, rule_nodetype
 
     rule_nodetype(ctx, rep)
+    rule_import_removal_owner(ctx, rep)
     rep.not_covered += ["observational equivalence over programs and runtime values", "SQL parameterisation returning the same rows", "tuple-valued names producing nested tuples in combine_args"]
